@@ -23,7 +23,12 @@ open BarterModel.Streams BarterModel.MarketStreamInit BarterModel.Props.C12
 /-- With at least one subscription `init_market_stream` is exactly the composition C12 is about
 (`runEvents` = `init_reconnecting_stream.with_reconnect_backoff.with_termination_on_error
 .with_reconnection_events`, in this order) on the script whose errors are classified by
-`DataError::is_terminal`; the notices carry the exchange id. -/
+`DataError::is_terminal`; the notices carry the exchange id.
+
+BOOKKEEPING, not a result: `initMarketStream` was WRITTEN as that composition (the proof is an
+unfolding), so this lemma only lets the C12 theorems be instantiated. That `consumer.rs:72-79` really is
+this expression — the order of the combinators, the closure, the policy passed on — is established by
+the harness run of the real function (correspondence), not here. -/
 theorem is_c12_composition (ex : Nat) (p : Policy) (n : Nat) (hn : n ≠ 0) (script : List MConn) :
     initMarketStream ex p n script = .run ex (runEvents p (script.map MConn.toConn)) := by
   unfold initMarketStream
@@ -87,15 +92,47 @@ theorem handler_refines_spec (ex : Nat) (p : Policy) (n : Nat) (script : List MC
     simp only [handlerRun_runEvents, run_handler_refines_spec]
 
 /-- Every `Reconnecting` notice carries the id of the connector the subscriptions are for
-(`with_reconnection_events(exchange)`, `exchange = Exchange::ID`). -/
+(`with_reconnection_events(exchange)`, `exchange = Exchange::ID`).
+
+BOOKKEEPING, not a result: `Event.reconnecting` of the C12 model has no origin field; the origin is a
+tag of `Outcome.run` copied from the argument, so this statement is true by construction. That every
+notice of the REAL stream carries `Exchange::ID` is checked only by the correspondence (the harness
+prints the origin of each notice, the driver prints the tag: `mutants/C12I_origin_constant.patch`). -/
 theorem origin_is_exchange (ex : Nat) (p : Policy) (n : Nat) (hn : n ≠ 0) (script : List MConn) :
     ∃ r, initMarketStream ex p n script = .run ex r := ⟨_, is_c12_composition ex p n hn script⟩
 
 /-! ## Terminal errors end the connection, not the stream -/
 
-/-- `DataError::is_terminal`: `InvalidSequence` and nothing else. -/
+/-- `DataError::is_terminal`: `InvalidSequence` and nothing else — over ALL EIGHT variants of
+`DataError` (`error.rs:8-44`; since the second review `ErrKind` lists also `Index`, `SubscriptionsEmpty`,
+`UnsupportedSubKind`, `Unsupported`, which the harness scripts as stream errors too). -/
 theorem terminal_iff_invalid_sequence (k : ErrKind) : k.isTerminal = true ↔ k = .invalidSequence := by
   cases k <;> simp [ErrKind.isTerminal]
+
+/-- The seven variants that do NOT end a connection, by name (the `_ => false` arm of `error.rs:49-54`
+spelled out). -/
+theorem non_terminal_variants :
+    [ErrKind.invalidSequence, .socket, .snapshotMissing, .snapshotInvalid, .index, .subscriptionsEmpty,
+      .unsupportedSubKind, .unsupported].filter (fun k => !k.isTerminal) =
+    [.socket, .snapshotMissing, .snapshotInvalid, .index, .subscriptionsEmpty, .unsupportedSubKind,
+      .unsupported] := by decide
+
+/-- The packing of a `DataError` (variant, payload) into the error id of the C12 model loses nothing:
+the driver's `ev err <k><id>` / `ev handled <k><id>` lines are read back from the code faithfully, so
+"which error was delivered / handled" in the theorems below is about the scripted variant and payload. -/
+theorem err_code_round_trip (k : ErrKind) (id : Nat) :
+    errKindOf (errCode k id) = k ∧ errIdOf (errCode k id) = id := by
+  constructor
+  · cases k <;> simp [errKindOf, errCode, ErrKind.idx, ErrKind.ofIdx, Nat.add_mod]
+  · cases k <;> simp [errIdOf, errCode, ErrKind.idx] <;> omega
+
+/-- distinct (variant, payload) pairs are distinct error ids of the C12 model -/
+theorem err_code_injective (k k' : ErrKind) (id id' : Nat) (h : errCode k id = errCode k' id') :
+    k = k' ∧ id = id' := by
+  have a := err_code_round_trip k id
+  have b := err_code_round_trip k' id'
+  rw [h] at a
+  exact ⟨a.1.symm.trans b.1, a.2.symm.trans b.2⟩
 
 /-- elements none of which is an `InvalidSequence` error -/
 def NoTerminal (a : List MElem) : Prop := ∀ el ∈ a, ∀ id, el ≠ .error .invalidSequence id
@@ -115,6 +152,10 @@ theorem hasTerminal_of_noTerminal (a : List MElem) (h : NoTerminal a) :
       | socket => simpa [MElem.toElem, hasTerminal, ErrKind.isTerminal] using ih hr
       | snapshotMissing => simpa [MElem.toElem, hasTerminal, ErrKind.isTerminal] using ih hr
       | snapshotInvalid => simpa [MElem.toElem, hasTerminal, ErrKind.isTerminal] using ih hr
+      | index => simpa [MElem.toElem, hasTerminal, ErrKind.isTerminal] using ih hr
+      | subscriptionsEmpty => simpa [MElem.toElem, hasTerminal, ErrKind.isTerminal] using ih hr
+      | unsupportedSubKind => simpa [MElem.toElem, hasTerminal, ErrKind.isTerminal] using ih hr
+      | unsupported => simpa [MElem.toElem, hasTerminal, ErrKind.isTerminal] using ih hr
 
 /-- the events the returned stream delivers -/
 def delivered (ex : Nat) (p : Policy) (n : Nat) (script : List MConn) : List (Event Res) :=
@@ -156,7 +197,8 @@ theorem terminal_error_ends_connection_not_stream (ex : Nat) (p : Policy) (n : N
     exact (never_ends p _).1 (Option.some.inj h)
 
 /-- **Every other error is an item of the returned stream and does not end the connection**: a
-non-terminal error (`Socket`, `InitialSnapshotMissing`, `InitialSnapshotInvalid`) after `a` is delivered
+non-terminal error (`Socket`, `InitialSnapshotMissing`, `InitialSnapshotInvalid`, `Index`,
+`SubscriptionsEmpty`, `UnsupportedSubKind`, `Unsupported` — every variant but `InvalidSequence`) after `a` is delivered
 as `Event::Item(Err(_))` in place, and what follows it in the connection is still delivered. -/
 theorem non_terminal_error_is_an_item (k : ErrKind) (hk : k ≠ .invalidSequence) (a b : List MElem)
     (id : Nat) (ha : NoTerminal a) :
